@@ -10,6 +10,7 @@ import KinModel.Lemmas.C13Params
 import KinModel.Lemmas.C13Media
 import KinModel.Gen.BodyDecoders
 import KinModel.Gen.BodyEncoders
+import KinModel.Lemmas.C13Flow
 namespace KinModel.C13
 open Stream
 
@@ -1025,5 +1026,57 @@ example :
   decide
 
 end MediaPart
+
+/-! ## Part 5 — every `return` of the five functions the request passes through (regenerated table C13BodyFlow)
+
+The stream model of Part 1 was written by reading the code; this part makes "the body is put back on every path" an
+obligation over the code's own control-flow skeleton, regenerated on every run: `Flow.Exec` are all paths of the
+skeleton, `Flow.accepts` is an abstract interpreter, `Flow.accepts_sound` (Lemmas/C13Flow.lean) its soundness for all
+paths — and `decide` runs it on the table. -/
+section FlowPart
+open Flow Gen
+
+/-- the translator could read every statement that touches the body stream -/
+theorem flow_recognised :
+    c13BodyFlow.map (·.1) = ["ValidateRequest", "ValidateParameter", "ValidateRequestBody", "ValidateSecurityRequirements", "validateSecurityRequirement"] ∧
+    c13BodyFlow.all (fun f => countL isUnrecognised f.2 == 0) = true := by decide +kernel
+
+/-- the interpreter accepts each of the five functions -/
+theorem flow_accepted : c13BodyFlow.all (fun f => accepts f.2) = true := by decide +kernel
+
+/-- **body_readable_after, on every path of the code's skeleton.**  For each of the five functions, entered with or
+without a request body: every path — whichever way the conditions fall, however often the loops run, whether or not a
+callback reads the body — ends in a `return` with the body in place or with a deferred restore registered; every
+authentication callback and every call of another of the five functions starts with the whole body in place; nothing
+unrecognised is executed. -/
+theorem every_return_protected (f : String × List FlowStmt) (hf : f ∈ c13BodyFlow) (s : FSt) (hs : s ∈ entryStates)
+    (o : Out) (h : Exec f.2 s o) : Protected o :=
+  accepts_sound f.2 (List.all_eq_true.mp flow_accepted f hf) s hs o h
+
+/-- **The shape the stream model relies on** (the "restore sites" of Part 1, now counted in the source): per function
+(reads of the body, restore blocks, default-rewrite blocks, deferred restores, callback calls): ValidateRequestBody reads
+once, restores once and installs the rewrite once; validateSecurityRequirement reads once, registers one deferred
+restore, restores before its one callback call; the other three functions never touch the stream themselves. -/
+theorem flow_shape_is_model :
+    c13BodyFlow.map (fun f => (f.1, (census f.2).take 5)) =
+      [("ValidateRequest", [0, 0, 0, 0, 0]), ("ValidateParameter", [0, 0, 0, 0, 0]),
+       ("ValidateRequestBody", [1, 1, 1, 0, 0]), ("ValidateSecurityRequirements", [0, 0, 0, 0, 0]),
+       ("validateSecurityRequirement", [1, 1, 0, 1, 1])] := by decide +kernel
+
+/-- non-vacuity of the interpreter and of the semantics: a `return` between the read and the restore (no deferred
+    restore) is rejected, and there is a path that reaches it with the body consumed; with the deferred restore it is
+    accepted -/
+example :
+    accepts [.ifBody 1 [.read 2 [.ret 3], .ifElse 4 [.ret 5] [], .restore 6] [], .ret 7] = false ∧
+    accepts [.ifBody 1 [.read 2 [.ret 3], .deferRestore 4, .ifElse 4 [.ret 5] []] [], .ret 7] = true ∧
+    accepts [.ifBody 1 [.read 2 [.ret 3], .restore 6] [], .loop 7 [.callback 8, .ifElse 9 [.ret 10] []], .ret 11] = false ∧
+    Exec [.ifBody 1 [.read 2 [.ret 3], .ifElse 4 [.ret 5] [], .restore 6] [], .ret 7] ⟨true, false, false, false⟩
+      (.ret 5 ⟨true, true, false, true⟩) := by
+  refine ⟨by decide +kernel, by decide +kernel, by decide +kernel, ?_⟩
+  refine Exec.branchStop _ _ _ [.read 2 [.ret 3], .ifElse 4 [.ret 5] [], .restore 6] _ (by simp [branches]) ?_ rfl
+  refine Exec.read _ _ _ _ _ ?_
+  exact Exec.branchStop _ _ _ [.ret 5] _ (by simp [branches]) (Exec.ret _ _ _) rfl
+
+end FlowPart
 
 end KinModel.C13
